@@ -694,6 +694,14 @@ func c02Run1(c *fw.Ctx) {
 		c02Exec(c, hist)
 		return false
 	})
+	// from the non-initial state "L proved the code, its key exchange was refused, L started again and proved the code
+	// again" (two exchanges on one connection that both got as far as a verified proof): every symbol once — L's genuine
+	// key exchange, sealed under the keys of the SECOND exchange, completes
+	if c.Shard == 2%c.NShards {
+		for _, sym := range alpha {
+			c02Exec(c, []string{"L:M1", "L:M3-valid", "L:M5-sealed-but-cut-inside", "L:M1", "L:M3-valid", sym})
+		}
+	}
 	sampled := 0
 	// only complete histories of maximal length are new work: the oracle runs after every event, so every
 	// prefix is judged inside its extensions; leaves are what we execute, plus nothing is lost by skipping inner nodes
@@ -718,7 +726,7 @@ func init() {
 	fw.Register(&fw.Check{
 		ID:    "C02",
 		Level: "model_checking",
-		Rule:  "every history of length 3 (quick, 23 symbols) / 4 (thorough, 28 symbols), plus every adversary-only history of length 5 (quick) / 7 (thorough) over 6 symbols around rejected SRP public keys, and of length 4 / 6 over those plus two verify requests during which the accessory's entropy source fails, plus — from the non-initial state 'L has completed pairing' — every adversary history of length 2 (quick) / 3 (thorough) over 7 replay symbols, and — from the state 'L has proved the code and not yet exchanged keys' — every history of length 2 / 3 over the whole alphabet; successive systems of a worker process rotate through three setup codes (one above 2^26) and the adversary's wrong code is another one of them, over the pair-setup alphabet on a legitimate connection L (knows the code) and an adversary connection X (sees all bytes, owns its keys, does not know the code): start; verify with right code, wrong code, A = 0 / N / 2N, proof missing, A missing, L's verify replayed, A = 0 with the proof for an empty session key; key-exchange genuine, L's genuine key-exchange delivered on another connection, sealed under the all-zero key / HKDF of an empty secret / the wrong-code secret / a random key, sealed under the all-zero key and presenting the neutral group element as long-term key with the signature that key accepts for every message, 0- and 15-byte payloads, tag flipped, L's key-exchange replayed; unknown method and states; reopen. Real transport over TCP with real SRP; a fresh system per history; after EVERY event the stored pairings (read through the database) must equal the model: the accessory's own entity plus exactly (L's id, L's key) iff L completed start → right-code verify → genuine key-exchange consecutively on its connection; proofs and M6 payloads must appear only when the model allows; the proof for the configured code directly after an accepted start is accepted; a look-up by name (what pair-verify uses) finds exactly the stored pairings, whatever earlier systems of the process stored. With the second code the legitimate controller has a 124-byte identifier with letters of both cases and bytes that are not valid UTF-8, with the third an identifier that ends in a NUL byte. L's key exchange sealed correctly but cut off inside ends the exchange. From the non-initial state '101 (thorough 300) setup-code proofs were refused', in one system: every adversary history of length 3 over the 6 deep symbols, each on a fresh connection, then L's genuine exchange. A genuine key exchange during which the storage refuses every write (RLIMIT_FSIZE 0) leaves the pairings that existed before in place. Plus interleavings of the real /pair-setup and /pair-verify handlers of two connections under a cooperative scheduler (subprocess built with the overlay; scheduling points = every log statement of the library, every mutex Lock in hap and crypto, and the arrival of each request), iterative preemption bounding to 2 (quick) / 3 (thorough), and once more with a scheduling point before EVERY statement of hc's packages and one preemption: two genuine key exchanges at once, a genuine key exchange next to a paired controller's pair-verify, next to an adversary's requests; after every schedule the stored pairings must be exactly those delivered. states = histories executed (each judges all its prefixes), distinct_nontrivial = distinct (event → response class) pairs",
+		Rule:  "every history of length 3 (quick, 23 symbols) / 4 (thorough, 28 symbols), plus every adversary-only history of length 5 (quick) / 7 (thorough) over 6 symbols around rejected SRP public keys, and of length 4 / 6 over those plus two verify requests during which the accessory's entropy source fails, plus — from the non-initial state 'L has completed pairing' — every adversary history of length 2 (quick) / 3 (thorough) over 7 replay symbols, and — from the state 'L has proved the code and not yet exchanged keys' — every history of length 2 / 3 over the whole alphabet; successive systems of a worker process rotate through three setup codes (one above 2^26) and the adversary's wrong code is another one of them, over the pair-setup alphabet on a legitimate connection L (knows the code) and an adversary connection X (sees all bytes, owns its keys, does not know the code): start; verify with right code, wrong code, A = 0 / N / 2N, proof missing, A missing, L's verify replayed, A = 0 with the proof for an empty session key; key-exchange genuine, L's genuine key-exchange delivered on another connection, sealed under the all-zero key / HKDF of an empty secret / the wrong-code secret / a random key, sealed under the all-zero key and presenting the neutral group element as long-term key with the signature that key accepts for every message, 0- and 15-byte payloads, tag flipped, L's key-exchange replayed; unknown method and states; reopen. Real transport over TCP with real SRP; a fresh system per history; after EVERY event the stored pairings (read through the database) must equal the model: the accessory's own entity plus exactly (L's id, L's key) iff L completed start → right-code verify → genuine key-exchange consecutively on its connection; proofs and M6 payloads must appear only when the model allows; the proof for the configured code directly after an accepted start is accepted; a look-up by name (what pair-verify uses) finds exactly the stored pairings, whatever earlier systems of the process stored. With the second code the legitimate controller has a 124-byte identifier with letters of both cases and bytes that are not valid UTF-8, with the third an identifier that ends in a NUL byte. L's key exchange sealed correctly but cut off inside ends the exchange; after it L starts and proves again on the same connection, then every symbol once (the genuine key exchange under the second exchange's keys completes). From the non-initial state '101 (thorough 300) setup-code proofs were refused', in one system: every adversary history of length 3 over the 6 deep symbols, each on a fresh connection, then L's genuine exchange. A genuine key exchange during which the storage refuses every write (RLIMIT_FSIZE 0) leaves the pairings that existed before in place. Plus interleavings of the real /pair-setup and /pair-verify handlers of two connections under a cooperative scheduler (subprocess built with the overlay; scheduling points = every log statement of the library, every mutex Lock in hap and crypto, and the arrival of each request), iterative preemption bounding to 2 (quick) / 3 (thorough), and once more with a scheduling point before EVERY statement of hc's packages and one preemption: two genuine key exchanges at once, a genuine key exchange next to a paired controller's pair-verify, next to an adversary's requests; after every schedule the stored pairings must be exactly those delivered. states = histories executed (each judges all its prefixes), distinct_nontrivial = distinct (event → response class) pairs",
 		Run:   c02Run1,
 		Replay: func(c *fw.Ctx, raw json.RawMessage) {
 			var pc pschedCase
